@@ -48,7 +48,9 @@ CHECKS = {
                    "conflicts with and without replace-by-fee signalling at higher/lower fees, orphans submitted before their parents, free and below-minimum fees, lock times at the finality boundary) through ProcessTransaction / "
                    "MaybeAcceptTransaction / CheckMempoolAcceptance / RemoveTransaction / RemoveDoubleSpends / RemoveOrphan(sByTag) / ProcessOrphans, interleaved with blocks mined from the pool by the harness, foreign blocks, reorganisations, "
                    "restarts, clock advances; seeded relay/orphan/replacement/mining policies; whole-pool invariants after every step"),
-             assumptions=_CHAINSIM_ASSUME + ["operation-level interleavings are explored sequentially (every public mempool operation holds the pool mutex for its whole duration); concurrent callers under the race detector are the poolrace mode"],
+             assumptions=_CHAINSIM_ASSUME + ["operation-level interleavings are explored sequentially (every public mempool operation holds the pool mutex for its whole duration); concurrent callers run in the poolrace worker group (K goroutines released together, binary built with the race detector): its interleavings are chosen by the Go runtime and are not replayable, race reports are reduced to the pair of conflicting call sites"],
+             also=[dict(tag="poolrace", race=True, workers=4, cpus=8, env={"VERIF_CHAINSIM_MODE": "poolrace"},
+                        quick=dict(runs=25, budget=60), thorough=dict(runs=1000000, budget=300))],
              quick=dict(runs=150, budget=75), thorough=dict(budget=900), det_runs=30),
  "C12": dict(engine="chainsim", race=False, level="exploration", cpus=2,
              rule=(_CHAINSIM_RULE + "; pool profile with template emphasis: NewBlockTemplate on reachable pool states, tips (incl. right after reorganisations and restarts) and seeded mining policies (min/max weight and size, priority area, minimum fee), "
@@ -83,12 +85,12 @@ CHECKS = {
               "the v1-prefix downgrade path of RespondV2Handshake is not driven (not part of the statement as judged here)",
              ],
              cpus=2, quick=dict(runs=1200, budget=90), thorough=dict(budget=900), det_runs=30),
- "C05": dict(engine="storesim", race=False, level="fault_enumeration", cpus=2,
+ "C05": dict(engine="storesim", race=False, level="fault_enumeration", cpus=1,
              rule=("one run = one seeded workload (5-60 operations: managed Update/View and manual Begin/Commit/Rollback; Put/Get/Delete, CreateBucket(IfNotExists)/DeleteBucket/Bucket nested 3 deep, ForEach/ForEachBucket, "
                    "cursor scripts incl. Delete while iterating over pending+cached+on-disk keys; StoreBlock/HasBlock(s)/FetchBlock(s)/FetchBlockHeader(s)/FetchBlockRegion(s) incl. pending blocks and out-of-range regions; "
                    "PruneBlocks/BeenPruned; Close+Open; clock advances across the flush interval; seeded cache size 'flush every commit'..'never', flush interval, block-file limit 'one block per file'..1 MiB) executed on the real ffldb "
                    "(real goleveldb, background compaction off) on a simulated disk in lock-step with an in-memory model, in one of five separate batches: refine (fault-free, every result compared op by op, then the final state live and after Close+Open); "
-                   "ioerr (the same workload re-executed once per I/O call index k with call k failing: write / short write / sync / read / open / remove / leveldb-storage error; complete enumeration when the workload makes <= 90 I/O calls (400 thorough), seeded stride subset otherwise); "
+                   "ioerr (the same workload re-executed once per I/O call index k with call k failing: write / short write / sync / read / open / remove / leveldb-storage error; complete enumeration when the workload makes <= 60 I/O calls (400 thorough), seeded stride subset otherwise); "
                    "crash_process and crash_powerloss (re-executed once per I/O index with the disk frozen at that call, post-crash disk built, 20% with a second crash while reopening); isolation (one writer, 1-3 readers holding View/Begin(false) snapshots, "
                    "turn-based replayable interleaving, porcupine). non-trivial = at least one committed write transaction and, in the fault batches, at least one fault fired; "
                    "distinct = hash of (batch, knob classes, per transaction: writable/managed/end kind + set of operation kinds, reopen/advance steps, fault kinds that fired)"),
@@ -101,6 +103,6 @@ CHECKS = {
               "ENOSPC is never injected (ffldb answers it with os.Exit); disk-full is represented by the crash at the same I/O point",
               "isolation interleavings are at the granularity of the actors' own steps (Begin, each read-all, each group of Puts, Commit); there are no yield points inside ffldb",
              ],
-             quick=dict(runs=150, budget=80), thorough=dict(budget=900), det_runs=30, det_budget=150),
+             quick=dict(runs=300, budget=110), thorough=dict(budget=900), det_runs=30, det_budget=150),
  "C99": dict(engine="smoke", race=False, level="exploration", rule="smoke", assumptions=[], quick=dict(runs=100, budget=20), thorough=dict(budget=30)),
 }
